@@ -177,6 +177,55 @@ def dynamic_binders(run, rng, n):
     return len(cases)
 
 
+def instantiation_scopes(run, rng, n):
+    """instantiation lines with parameters of their own: the names an argument uses are looked up in that line's parameters first, then among the globals; the
+    parameters of one line are out of scope in every other line (before and after it)"""
+    POOL = ['k', 'm', 'n', 'q']
+    cases = []
+    for _ in range(n):
+        glob = [x for x in POOL if rng.random() < 0.4]
+        np = rng.choice([1, 2, 3])
+        lines, want = [], []
+        for li in range(rng.choice([2, 3, 4])):
+            own = [x for x in POOL if rng.random() < 0.35]
+            args = [rng.choice(POOL) for _ in range(np)]
+            lines.append('I%d%s = T(%s);' % (li, '(%s)' % ', '.join('const int[0,1] %s' % x for x in own) if own else '', ', '.join(args)))
+            want.append((len(own), ['inner' if a in own else ('global' if a in glob else 'unknown') for a in args]))
+        decl = ''.join('const int %s = 1;\n' % x for x in glob)
+        xml = ('<?xml version="1.0" encoding="utf-8"?><nta><declaration>%s</declaration><template><name>T</name><parameter>%s</parameter><location id="id0"/><init ref="id0"/></template>'
+               '<system>%s\nsystem %s;</system></nta>') % (decl, ', '.join('const int[0,5] a%d' % q for q in range(np)), '\n'.join(lines), ', '.join('I%d' % li for li in range(len(lines))))
+        cases.append((xml, lines, want, np))
+    j = vlib.Job()
+    for k, c in enumerate(cases):
+        j.case('is%d' % k, fork=True).cmd('BIND 1').model('xml', c[0]).dump('errors').dump('instances').end()
+    rr = vlib.run_jobs(j)
+    for k, (xml, lines, want, np) in enumerate(cases):
+        r = rr['is%d' % k]
+        if r['status'] != 'ok' or len(r['cmds']) < 4:
+            run.fail('builder crashed on instantiation lines with parameters', dict(xml=xml, status=r['status']), shape='crash:instantiation-scope')
+            continue
+        unknown_lines = {int(m.group(1)) for l in r['cmds'][2][2] for m in [re.search(r'Unknown_identifier.*line=(\d+)\.\.', l)] if m}
+        other = [l for l in r['cmds'][2][2] if l.startswith('error') and 'Unknown_identifier' not in l]
+        inst = {}
+        for l in r['cmds'][3][2]:
+            m = re.match(r'arity=(\d+) instance \d+ name=(I\d+) .*? unbound=(\d+) arguments=\d+ mapping=\{(.*)\} nmapping', l)
+            if m:
+                inst[m.group(2)] = (int(m.group(1)), int(m.group(3)), m.group(4))
+        for li, (nown, kinds) in enumerate(want):
+            got = inst.get('I%d' % li)
+            if got is None:
+                run.fail('an instantiation line left no instance: %s' % lines[li], dict(xml=xml, errors=other[:3]), shape='scope:instantiation:missing')
+                break
+            binds = re.findall(r'a(\d+):=\((?:IDENTIFIER \w+@(\w+):|CONSTANT)', got[2])
+            seen = {int(a): (w or 'unknown') for a, w in binds}
+            exp = {q: kd for q, kd in enumerate(kinds)}
+            if seen != exp or got[1] != nown or (('unknown' in kinds) != ((li + 1) in unknown_lines)):
+                run.fail('the arguments of %r are bound to %s (unbound parameters %d, unknown identifier reported: %s); by the scope rules: %s, %d' % (lines[li], seen, got[1], (li + 1) in unknown_lines, exp, nown),
+                         dict(xml=xml, line=lines[li], got=got, expected=exp, errors=r['cmds'][2][2][:4]), shape='scope:instantiation-parameters')
+                break
+    return len(cases)
+
+
 def check(run):
     thorough = run.tier == 'thorough'
     rng = run.rng
@@ -231,6 +280,7 @@ def check(run):
             samples.append(dict(tree=tree, xml=xml, bindings=S))
     dstats = qualified(run, thorough)
     dstats['dynamic_binder_guards'] = dynamic_binders(run, rng, 400 if thorough else 60)
+    dstats['instantiation_scope_models'] = instantiation_scopes(run, rng, 300 if thorough else 80)
     stats.update(dstats)
     if mism:
         run.tie_broken('scope generator / dump reader out of step', mism[:3] + [dict(total=len(mism))])
